@@ -279,6 +279,12 @@ func RunC10(env *Env, rep *Report) {
 			cases = append(cases, c10NestedTerminatorCase(where, kw))
 		}
 	}
+	// commands that differ from end / return only in letter case are ordinary commands
+	for _, where := range []string{"if", "case", "top"} {
+		for _, kw := range []string{"END", "End", "RETURN", "Return"} {
+			cases = append(cases, c10NestedTerminatorCase(where, kw))
+		}
+	}
 	cases = append(cases, c10PoryswitchCase(true), c10PoryswitchCase(false), c10PoryswitchCaseOrder(true, true), c10PoryswitchCaseOrder(false, true), c10SwitchBodyCase(), c10NumberFormsCase(),
 		c10UnreachableStretchCase("after-infinite-loop"), c10UnreachableStretchCase("after-leaving-ifelse"), c10UnreachableStretchCase("after-break-in-loop"))
 	rep.Technique = "symbolic execution of the real command parser and renderer (go/ssa) with symbolic token literals; rope equalities between output lines and the token-wise reference, aliasing with constant names decided by the solver (z3)"
@@ -449,6 +455,10 @@ func c10NestedTerminatorCase(where, kw string) *Case {
 		body = "  switch (var(" + f.Placeholder() + ")) {\n  case 1:\n" + inner + "  case 2:\n    " + c3.Placeholder() + "\n  }\n"
 	}
 	src := "script " + sname.Placeholder() + " {\n" + body + "  " + c2.Placeholder() + "\n}"
+	if where == "top" {
+		// the last statement of the script itself
+		src = "script " + sname.Placeholder() + " {\n  " + c2.Placeholder() + "\n" + inner + "}"
+	}
 	prog := &Program{Atoms: atoms, Tops: []interface{}{&TopRaw{Text: src}}}
 	cs := &Case{Name: "c10/nested-terminator/" + where + "/" + kw, Prog: prog, Variants: optVariants, NonTrivial: true, Shape: c10Shape{Cmds: []string{"nested-" + kw + "-in-" + where}}, MaxPaths: 16}
 	cs.Oracle = func(x *OracleCtx) *Violation {
